@@ -3564,7 +3564,7 @@ class CaseNode(Node):
             actions, new_next = target.adopt_actions_from()
 
             # adopt into our internal list
-            self.case_match_actions.update({sub_matches: actions})
+            self.case_match_actions.update({sub_matches: list(actions)})
             if new_next is not None:
                 self.sub_matches[sub_matches] = new_next
             else:
